@@ -141,14 +141,26 @@ class _TooLong(BaseException):
 
 
 def _alarm(*_):
-    raise _TooLong('no result after 2 s')
+    raise _TooLong()
 
 
 def check(shop, spec, via, real_dot=None):
-    '''build one engine, run Construct, compare; returns list of violation tuples'''
+    '''build one engine, run Construct, compare; returns list of violation tuples
+
+    A hang is only reported when the same case overruns twice (2 s, then 4 s of CPU time of this process): on an
+    overcommitted VM a single overrun of a trivial case was observed right after forking 16 workers.'''
+    res = None
+    for limit in (2, 4):
+        res = _check_once(shop, spec, via, real_dot, limit)
+        if not (res and res[0][1] == 'construct:hang'):
+            break
+    return res
+
+
+def _check_once(shop, spec, via, real_dot, limit):
     eng = shop.build(spec)
-    signal.signal(signal.SIGALRM, _alarm)
-    signal.setitimer(signal.ITIMER_REAL, 2)
+    signal.signal(signal.SIGVTALRM, _alarm)
+    signal.setitimer(signal.ITIMER_VIRTUAL, limit)
     try:
         try:
             factories = eng.scan() if via == 'scan' else eng.direct()
@@ -167,10 +179,10 @@ def check(shop, spec, via, real_dot=None):
                 if b'<svg' not in blob:
                     return [('C09.construct', 'construct:svg', blob[:80].decode('latin1'), 'an svg rendering')]
         return compare(spec, construct)
-    except _TooLong as e:
-        return [('C09.construct', 'construct:hang', repr(e), 'a task graph')]
+    except _TooLong:
+        return [('C09.construct', 'construct:hang', f'no result after {limit} s of CPU time (second attempt)', 'a task graph')]
     finally:
-        signal.setitimer(signal.ITIMER_REAL, 0)
+        signal.setitimer(signal.ITIMER_VIRTUAL, 0)
         eng.forget()
         shop.engines.remove(eng)
 
@@ -230,7 +242,8 @@ def cases(tier, seed):
     res = []
     for i, (how, spec) in enumerate(out):
         via = 'scan' if spec['style'] == 'auto' or i % 2 == 0 else 'direct'
-        res.append({'spec': spec, 'via': via, 'how': how, 'real_dot': i in (0, n_enum // 2, n_enum)})
+        dots = (n_enum // 2,) if tier == 'quick' else (0, n_enum // 2, n_enum)
+        res.append({'spec': spec, 'via': via, 'how': how, 'real_dot': i in dots})
     return res, n_enum
 
 
@@ -257,7 +270,7 @@ def _worker(chunk):
 def run(tier: str, seed: int) -> dict:
     t0 = time.time()
     todo, n_enum = cases(tier, seed)
-    _DEADLINE[0] = t0 + (14 if tier == 'quick' else 240)
+    _DEADLINE[0] = t0 + (12 if tier == 'quick' else 240)
     results = G.run_cases(_worker, todo, 16 if tier == 'thorough' else 1)
     violations, seen, counts = [], {}, {}
     done = 0
@@ -296,7 +309,7 @@ def run(tier: str, seed: int) -> dict:
         'exhaustive': False,
         'exhaustive_part': f'{n_enum} enumerated skeleton cases (independent of the seed), all run',
         'truncated': done < len(todo),
-        'graphviz': 'real `dot` for 3 sample engines, stubbed pydot.Dot.write (dot text instead of svg) for the rest',
+        'graphviz': 'real `dot` for 1 (quick) / 3 (thorough) sample engines, stubbed pydot.Dot.write (dot text instead of svg) for the rest',
         'samples': [{'spec': c['spec'], 'via': c['via']} for c in (todo[0], todo[n_enum // 2], todo[n_enum], todo[-1])],
         'violations': violations,
         'clauses': CLAUSES,
